@@ -34,6 +34,7 @@ type c11Case struct {
 	t5       time.Duration
 	atFirst  bool          // the fault hits the very first generation (otherwise a second one)
 	cold     int           // active only: the first `cold` dials of the very first Open are refused (cold peer)
+	thenDead bool          // after the recovery the peer falls silent: the auto-linktest (interval 2 s) must drop the link and the connection must recover once more
 	newT5    time.Duration // != 0: T5 is changed at runtime (UpdateConfigOptions) in the middle of the second backoff sleep of the recovery
 }
 
@@ -43,6 +44,8 @@ const (
 	c11T8 = 100 * time.Millisecond
 	c11WT = 250 * time.Millisecond
 	c11LT = 50 * time.Millisecond
+	// c11SlowLT: linktest interval of the "thenDead" follow-up
+	c11SlowLT = 2 * time.Second
 )
 
 // c11Exchange runs the connect/select/first-data/linktest exchange from the peer's side on p and
@@ -77,6 +80,9 @@ func runC11(rt interface {
 		hsms.WithReconnectBackoff(c.initial, c.mult), hsms.WithWriteTimeout(c11WT), hsms.WithLinktestFailThreshold(2), hsms.WithCloseTimeout(2 * time.Second)}
 	if c.fault == "linktest" {
 		opts = append(opts, hsms.WithLinktestInterval(c11LT))
+	} else if c.thenDead {
+		// longer than anything the first fault does (no probe falls due while a write is stalled)
+		opts = append(opts, hsms.WithLinktestInterval(c11SlowLT))
 	}
 	w, err := newWorld(worldOpt{active: c.active, connOpts: opts})
 	if err != nil {
@@ -333,6 +339,26 @@ func runC11(rt interface {
 		}
 	}
 	_ = kindFail
+	if c.thenDead {
+		// The recovered session is as well protected as the first one: when its peer falls silent the
+		// auto-linktest drops it within a few intervals (whatever the earlier failure left behind in
+		// the bookkeeping the linktest consults), and the connection recovers once more.
+		p2.SetAuto(false, false)
+		bound := 4*(c11SlowLT+c11T6) + time.Second
+		if !p2.WaitEOF(bound) {
+			fail("after the recovery the peer fell silent, but the auto-linktest (interval %v, T6 %v, threshold 2) did not drop the link within %v", c11SlowLT, c11T6, bound)
+		}
+		logf("silent peer dropped by the linktest")
+		synctest.Wait()
+		p3 := up()
+		if err := w.selectAsPeer(p3, 0x5e1ec9); err != nil {
+			fail("the link recovered after the linktest drop could not be selected: %v", err)
+		}
+		if _, d, l := c11Exchange(w, p3, false); !d || !l {
+			fail("the session recovered after the linktest drop does not work (data=%v linktest=%v)", d, l)
+		}
+		classes = append(classes, "c11:then-dead")
+	}
 	// no reconnect after Close
 	if err := w.conn.Close(); err != nil {
 		fail("Close: %v", err)
@@ -352,7 +378,7 @@ func runC11(rt interface {
 func rapid0(x int64) int64 { return x }
 
 func TestC11Recovery(t *testing.T) {
-	ev.Rule("(role, fault, refusals 0..8, backoff initial/multiplier/T5, faulted generation first or second): fault = reset after the peer wrote / read a drawn number of bytes of the connect-select-data-linktest exchange, peer close, unanswered select (T6), silent peer (T7), partial frame (T8), closed window (write timeout), dead linktest, Select.rsp status 2..255; then k refused dials / failed listens; optionally T5 changed at runtime (UpdateConfigOptions) in the middle of the second backoff sleep: later sleeps are capped by the new value; active: 0-4 refused dials before the very first connection (cold start: same backoff schedule, Reconnects() stays 0); oracle: every gap between attempts equals the ref/fsm.Backoff sequence exactly (virtual time), positive, non-decreasing, <= T5; the link is re-established, re-selected, a reply-expected round trip and a linktest work; Reconnects() +1 per successful re-dial (active); nothing is dialled or listened after Close; non-trivial = the fault lands after the first byte of an exchange, or k >= 2")
+	ev.Rule("(role, fault, refusals 0..8, backoff initial/multiplier/T5, faulted generation first or second): fault = reset after the peer wrote / read a drawn number of bytes of the connect-select-data-linktest exchange, peer close, unanswered select (T6), silent peer (T7), partial frame (T8), closed window (write timeout), dead linktest, Select.rsp status 2..255; then k refused dials / failed listens; optionally, after the recovery, the peer falls silent and the auto-linktest (interval 2 s) must drop the link and the connection recover once more; optionally T5 changed at runtime (UpdateConfigOptions) in the middle of the second backoff sleep: later sleeps are capped by the new value; active: 0-4 refused dials before the very first connection (cold start: same backoff schedule, Reconnects() stays 0); oracle: every gap between attempts equals the ref/fsm.Backoff sequence exactly (virtual time), positive, non-decreasing, <= T5; the link is re-established, re-selected, a reply-expected round trip and a linktest work; Reconnects() +1 per successful re-dial (active); nothing is dialled or listened after Close; non-trivial = the fault lands after the first byte of an exchange, or k >= 2")
 	vt.Bubble(t, func(t *testing.T) {
 		vt.CheckBubble(t, 4000, 200000, func(rt *rapid.T) {
 			c := c11Case{active: rapid.Bool().Draw(rt, "active")}
@@ -372,6 +398,9 @@ func TestC11Recovery(t *testing.T) {
 			c.atFirst = rapid.Bool().Draw(rt, "atFirst")
 			if c.active {
 				c.cold = rapid.SampledFrom([]int{0, 0, 1, 2, 4}).Draw(rt, "cold")
+			}
+			if c.fault == "peer-close" || c.fault == "t8" || c.fault == "write-timeout" { // (probes would shift the byte offsets of the cut faults)
+				c.thenDead = rapid.IntRange(0, 3).Draw(rt, "thenDead") == 0
 			}
 			if c.refusals >= 2 && c.fault != "write-timeout" && c.offset%3 != 0 && rapid.Bool().Draw(rt, "retune") {
 				c.newT5 = time.Duration(rapid.SampledFrom([]int{10, 30, 80, 400, 3000}).Draw(rt, "newT5Ms")) * time.Millisecond
